@@ -41,7 +41,7 @@ Whys(e) ==
             \* of the stack trace, one calling frame when the fault is raised inside a block - name the call site
             \o one(~(All(Positions([e EXCEPT !.frames = <<>>]), LAMBDA p : ColumnPreserved(s, p))
                       /\ \E k \in 0..Len(e.frames) :
-                            /\ s.fault.kind = "runtimeexit" => k = Len(e.frames) - 1
+                            /\ InBlock(s.fault.kind) => k = Len(e.frames) - 1
                             /\ All(SubSeq(e.frames, 1, k), LAMBDA p : ColumnPreserved(s, p))
                             /\ All(SubSeq(e.frames, k + 1, Len(e.frames)), LAMBDA p : CallColumnPreserved(s, p))), "ColumnPreserved")
 
